@@ -390,9 +390,12 @@ func c07BlindsUnset(c *h.Ctx) {
 	opened := false
 	// the engine retries every 3 s for 30 s and the gate callback returns afterwards; the quick tier only watches
 	// the first attempt and the first retry (a hand that opens later is missed, never invented)
-	watch := 45 * time.Second
-	if !c.Thorough() {
-		watch = 4500 * time.Millisecond
+	// thorough: a quarter of these cases watch the whole 30 s retry loop (and end there: the engine has given up by
+	// then); the others, like quick, go on with what happens inside the retry wait
+	long := c.Thorough() && (c.Case/32)%4 == 0 && c.Case%64 == 15
+	watch := 4500 * time.Millisecond
+	if long {
+		watch = 45 * time.Second
 	}
 	s.WaitFor(watch, func(e *h.Ev) bool {
 		if e.Kind == h.EvTable && e.T != nil && e.T.State.Status == pt.TableStateStatus_TableGameOpened {
@@ -409,7 +412,7 @@ func c07BlindsUnset(c *h.Ctx) {
 	c.FP("unset", fmt.Sprintf("%+v", cfg))
 	// the blind level arrives while the engine waits to retry: the hand the retry opens is hand 1, with a fresh id;
 	// in two of three cases the table is closed / released in the same wait, and then nothing may open
-	if !c.Thorough() || c.R.Intn(2) == 0 {
+	if !long {
 		bb := int64(20)
 		switch (c.Case / 32) % 4 {
 		case 3:
